@@ -268,12 +268,14 @@ class _ExpandFirstInput(RewriteRuleClassBase):
     def check(self, context, x: ir.Value, shape: ir.Value, y: ir.Value) -> MatchResult:
         expand_output = context.root.inputs[0] if context.root.inputs else None
         binary_op_output = context.root.outputs[0] if context.root.outputs else None
+        # Keep the attributes of the binary op (BitShift.direction, Mod.fmod) for the rewritten node.
+        self._attributes = dict(context.root.attributes)
         return _check_expand_removable(
             x, shape, y, expand_output=expand_output, binary_op_output=binary_op_output
         )
 
     def rewrite(self, op, x: ir.Value, shape: ir.Value, y: ir.Value) -> ir.Value:
-        return getattr(op, self._op_type)(x, y)
+        return getattr(op, self._op_type)(x, y, **self._attributes)
 
 
 class _ExpandSecondInput(RewriteRuleClassBase):
@@ -289,12 +291,14 @@ class _ExpandSecondInput(RewriteRuleClassBase):
     def check(self, context, x: ir.Value, y: ir.Value, shape: ir.Value) -> MatchResult:
         expand_output = context.root.inputs[1] if context.root.inputs else None
         binary_op_output = context.root.outputs[0] if context.root.outputs else None
+        # Keep the attributes of the binary op (BitShift.direction, Mod.fmod) for the rewritten node.
+        self._attributes = dict(context.root.attributes)
         return _check_expand_removable(
             y, shape, x, expand_output=expand_output, binary_op_output=binary_op_output
         )
 
     def rewrite(self, op, x: ir.Value, y: ir.Value, shape: ir.Value) -> ir.Value:
-        return getattr(op, self._op_type)(x, y)
+        return getattr(op, self._op_type)(x, y, **self._attributes)
 
 
 def _make_expand_before_binary_op_rules() -> list:
